@@ -833,3 +833,9 @@ M('c01n-destroy-frees-before-test', 'C01', 'break', 'htp/htp_list.c',
 M('c01n-retest-after-guarded-use-keep', 'C01', 'keep', 'htp/htp_list.c',
   '    if (l == NULL) return;\n\n    free(l->elements);\n    free(l);',
   '    if (l == NULL) return;\n\n    free(l->elements);\n    if (l != NULL) free(l);')
+M('c09i-d33-request-start-status-dropped', 'C09', 'break', RQ,
+  '    htp_status_t rc = htp_tx_state_request_start(connp->in_tx);\n    if (rc != HTP_OK) return rc;\n\n    return HTP_OK;',
+  '    htp_tx_state_request_start(connp->in_tx);\n\n    return HTP_OK;', 'C09.i')
+M('c09i-request-start-status-returned-directly-keep', 'C09', 'keep', RQ,
+  '    htp_status_t rc = htp_tx_state_request_start(connp->in_tx);\n    if (rc != HTP_OK) return rc;\n\n    return HTP_OK;',
+  '    return htp_tx_state_request_start(connp->in_tx);')
